@@ -19,7 +19,7 @@ LEVEL_TEXT = ("Coq theorems over the regenerated AngularRate.update ('closed'; '
               "steps of Madgwick/Mahony/AQUA, EKF.f, ROLEQ.attitude_propagation and angular_velocities: closed form = axis-angle "
               "composition for any number of steps (induction), series = k-th partial sum with true matrix powers, coefficient error "
               "<= h^(k+1)/(k+1)! (standard-library Taylor brackets), all dead-reckoning steps equal")
-LEVEL_NOTE = ("needs fixes/C08-series-matrix-power.patch (the pinned tree uses an element-wise power; exhibited by C08_refuted.v); "
+LEVEL_NOTE = ("the series repair (matrix_power) is in /repo; the dead-reckoning theorem is quantified over the carried filter state (bias, gains, P) too; "
               "the output-level error after the final normalisation and the N-step accumulation of the angular_velocities "
               "re-integration are explored by the oracle, not proved")
 TECHNIQUE = "pysym regeneration + Coq (field/ring, induction, stdlib pre_cos_bound/pre_sin_bound, interval) + numeric search oracle"
@@ -32,7 +32,7 @@ TRUSTED = ["Coq 8.16.1 kernel; vm_compute for the float copies; Interval's primi
            "stdlib real-number axioms and Classical_Prop.classic (Rtrigo)",
            "real arithmetic stands for binary64 (measured by correspondence and by the search oracle)"]
 PARTIAL = ("proved: closed form exact for every N; series = normalised true partial sum for orders 0..6 under (|w|dt/2)^2 <= 1; coefficient "
-           "error bound h^(k+1)/(k+1)! for h <= 1 and its strict decrease with k; equality of all dead-reckoning steps; angular_velocities "
+           "error bound h^(k+1)/(k+1)! for h <= 1 and its strict decrease with k; equality of all dead-reckoning steps for every carried filter state (Madgwick.updateMARG only for a non-zero magnetometer sample: known finding, dt dropped on delegation); angular_velocities "
            "formula and its sin(h)/h scaling on a closed-form step. Explored only: the error of the series output after its final "
            "normalisation (oracle: <= 2 h^(k+1)/(k+1)!), N-step re-integration of recovered rates, the vectorised 'integration' method "
            "(known finding: not a rotation integral), float rounding")
